@@ -12,6 +12,7 @@ import S3V.Driver.Chunk
 import S3V.Driver.Download
 import S3V.Driver.Upload
 import S3V.Driver.M2
+import S3V.Driver.Bandwidth
 
 namespace S3V.Driver
 
@@ -21,6 +22,7 @@ structure DState where
   coord : S3V.Coord.Coord := {}
   chunk : ChunkD := {}
   m2 : M2D := {}
+  bw : S3V.Bandwidth.Bucket := { maxRate := 1 }
 
 def DState.init : DState := {}
 
@@ -29,6 +31,7 @@ def step (st : DState) (line : String) : DState × String :=
   match toks with
   | ["reset"] => (DState.init, "ok")
   | "plan" :: rest => (st, planStep rest)
+  | "bw" :: rest => let r := bwStep st.bw rest; ({ st with bw := r.1 }, r.2)
   | "exec" :: _ | "xfer" :: _ | "fs" :: _ => let r := m2Step st.m2 toks; ({ st with m2 := r.1 }, r.2)
   | "up" :: rest => (st, upStep rest)
   | "dl" :: rest => (st, dlStep rest)
